@@ -269,3 +269,7 @@ func Observe(label string, vals ...interface{}) {
 
 // Preempted returns the number of pre-emptions used so far (0 natively).
 func Preempted() int { return 0 }
+
+// SetUntil fixes what time.Until returns for the rest of the path (the clock is
+// abstract under the engine). No-op natively.
+func SetUntil(d time.Duration) {}
